@@ -216,7 +216,7 @@ Stmts(p, H, ZS) ==
     [] p = "PI9"  -> <<IfElif(E0, Bin(">", vA, vB), <<OS("no")>>, TF(Bin(">", H, Num(3))))>>
     [] p = "PI10" -> <<For3(<<Def("i", Num(0))>>, <<Bin("&&", Bin("<", ii, H), Bin("<", ii, Num(3)))>>, <<IncS("++", ii)>>, <<O1(ii)>>)>>
     [] p = "PI11" -> <<For3(<<Def("i", H)>>, <<Bin("<", ii, Bin("+", H, Num(2)))>>, <<IncS("++", ii)>>, <<O1(ii)>>)>>
-    [] p = "PI12" -> <<For3(<<Def("i", Num(0))>>, <<Bin("<", ii, Num(30))>>, <<Asg("=", ii, Bin("+", ii, Bin("+", H, Num(9))))>>, <<O1(ii)>>)>>     \* (the interpreter has no "+=" in this clause)
+    [] p = "PI12" -> <<For3(<<Def("i", Num(0))>>, <<Bin("<", ii, Num(30))>>, <<Asg("=", ii, Bin("+", Bin("+", ii, PH), Num(9)))>>, <<O1(ii)>>)>>     \* (the interpreter has no "+=" in this clause)
     [] p = "PI13" -> <<Def("n", Num(0)), ForC(Bin("<", nn, H), <<Asg("+=", nn, Num(8))>>), O1(nn)>>
     [] p = "PI14" -> <<Sw(E0, <<H>>, <<Cl(<<Num(7)>>, <<OS("seven")>>), Cl(<<Num(4), Num(6)>>, <<OS("4or6")>>), Cl(E0, <<OS("other")>>)>>)>>
     [] p = "PI15" -> <<Sw(<<Def("x", H)>>, <<vX>>, <<Cl(<<Num(7)>>, <<Out(<<S1("seven"), vX>>)>>), Cl(E0, <<Out(<<S1("other"), vX>>)>>)>>)>>
